@@ -47,13 +47,17 @@ def _tag(path, base):
 
 
 class _Killer:
-    def __init__(self, base, kill_at, logfd):
-        self.base, self.kill_at, self.logfd, self.n = base, kill_at, logfd, 0
+    def __init__(self, base, kill_at, logfd, mode="kill"):
+        self.base, self.kill_at, self.logfd, self.n, self.mode = base, kill_at, logfd, 0, mode
 
     def op(self, op, a, b=""):
         self.n += 1
         if self.kill_at is not None and self.n == self.kill_at:
-            os._exit(137)
+            if self.mode == "kill":
+                os._exit(137)
+            # the process dies of an exception instead (second Ctrl-C, disk full): cleanup code of the writer still runs
+            self.kill_at = None
+            raise KeyboardInterrupt("interrupted at a file-system call")
         os.write(self.logfd, (json.dumps({"op": op, "a": a, "b": b}) + "\n").encode())
 
 
@@ -84,8 +88,8 @@ class _File:
         return getattr(self._f, k)
 
 
-def _install(base, kill_at, logfd):
-    k = _Killer(base, kill_at, logfd)
+def _install(base, kill_at, logfd, mode="kill"):
+    k = _Killer(base, kill_at, logfd, mode)
     real_open = builtins.open
 
     def my_open(file, mode="r", *a, **kw):
@@ -216,7 +220,7 @@ WRITERS["Optimizer.save_full_state"] = _writer_optimizer
 WRITERS["MCMC.save_full_state"] = _writer_mcmc
 
 
-def run_child(d, writer, version, kill_at, big=False):
+def run_child(d, writer, version, kill_at, big=False, mode="kill"):
     """Run the real writer in a forked child, killed before its kill_at-th FS call.
     Returns (exit status, [ops performed])."""
     base = os.path.join(d, "checkpoint.json")
@@ -226,7 +230,7 @@ def run_child(d, writer, version, kill_at, big=False):
     if pid == 0:
         code = 3
         try:
-            _install(base, kill_at, logfd)
+            _install(base, kill_at, logfd, mode)
             WRITERS[writer](base, version, big)
             code = 0
         except SystemExit:
@@ -379,6 +383,20 @@ def enumerate_real(ctx: Ctx, root, writer, max_writes, big=False, write_points="
                               f"{inv} violated on the real directory after {'crash before call %d (%s)' % (k, at) if crashed else 'completion'}"
                               f" of write {ver}: {obs}; state before: {before}",
                               {"writer": writer, "trace": trace})
+            if crashed:
+                # the same point, but the process dies of an exception (KeyboardInterrupt raised inside the call): whatever the
+                # writer's cleanup code does, the directory must satisfy the same invariants
+                shutil.rmtree(work, ignore_errors=True)
+                shutil.copytree(d, work)
+                st2, ops2 = run_child(work, writer, ver, kill, big, mode="raise")
+                obs2 = project(work)
+                ctx.add("exception_deaths")
+                for inv in py_invariants(obs2, good):
+                    ctx.violation(_vkey(inv, before, at) + ":exception", f"{inv} violated on the real directory after the writer was interrupted by an exception "
+                                  f"inside call {k} ({at}) of write {ver}: {obs2}; state before: {before}", {"writer": writer, "trace": trace, "mode": "exception"})
+                shutil.rmtree(work, ignore_errors=True)
+                shutil.copytree(d, work)
+                run_child(work, writer, ver, kill, big)          # restore the killed state for the snapshot below
             key = (_key(obs), nw + 1, ngood)
             if key not in seen:
                 seen.add(key)
